@@ -96,6 +96,15 @@ func c04make() c04setup {
 			s.keys = append(s.keys, c)
 			continue
 		}
+		if vx.HasParam("kconc") && t == "string" { // concrete string key pattern with three nulls
+			c := vxCol{typ: "string", s: make([]string, P), null: make([]bool, P)}
+			for k := range c.s {
+				c.s[k] = []string{"b", "", "", "c", "", "b"}[k%6]
+				c.null[k] = k%6 == 1 || k%6 == 2 || k%6 == 4
+			}
+			s.keys = append(s.keys, c)
+			continue
+		}
 		if vx.HasParam("kconc") { // concrete bool key pattern: grouping itself is not the subject
 			c := vxCol{typ: "bool", b: make([]bool, P)}
 			for k := range c.b {
